@@ -15,3 +15,4 @@ size_t g_vj_len_a, g_vj_len_b, g_vj_len_c, g_vj_len_d;
 time_t g_now;
 /* callback record (contract_cb_checker / contract_cb_builder) */
 int g_cb_called, g_cb_ret; const jwk_item_t *g_cb_key; jwt_alg_t g_cb_alg;
+jwk_item_t *g_cb_pool_key; json_t *g_cb_pool_node;
